@@ -48,6 +48,8 @@ BQ(b, par) == b \o "_" \o ToString(par)
     [] g = "bctr" -> bctr
 #! FAITHFUL
 , "bctr"
+#! PINNED
+ @@ ("fiber_barrier_wait:ctr:RMW" :> {"br0"})
 #! FNPROC
 ,
            fiber_barrier_wait |-> {"barrier_wait"}
